@@ -193,7 +193,7 @@ static scpi_result_t handler(scpi_t * c) {
         hop_t * o = &s->ops[i];
         if (o->k == 'p') {
             scpi_bool_t ok = FALSE;
-            int nerr0 = nerr;
+            int nerr0 = nerr, cnt0 = (int) SCPI_ErrorCount(c);
             logf_("%s{\"k\":\"%s\",", k++ ? "," : "", o->kind);
             if (!strcmp(o->kind, "i32")) { int32_t v = 0; ok = SCPI_ParamInt32(c, &v, o->mand); logf_("\"v\":"); if (ok) put_dec(v); else logf_("[]"); }
             else if (!strcmp(o->kind, "u32")) { uint32_t v = 0; ok = SCPI_ParamUInt32(c, &v, o->mand); logf_("\"v\":"); if (ok) put_dec(v); else logf_("[]"); }
@@ -227,7 +227,7 @@ static scpi_result_t handler(scpi_t * c) {
                 free(buf);
             } else logf_("\"v\":[]");
             logf_(",\"ok\":%d}", ok ? 1 : 0);
-            if (!ok && s->stop && (o->mand || nerr > nerr0)) stopped = 1;
+            if (!ok && s->stop && (o->mand || nerr > nerr0 || (int) SCPI_ErrorCount(c) > cnt0)) stopped = 1;
         } else if (o->k == 'A') {
             /* SCPI_ParamArray<kind>: one log entry per delivered element, then {"k":"pa","v":<count>,"ok":<result>} */
             size_t cnt = 0, j, n = (size_t) o->ival;
@@ -358,8 +358,19 @@ static void start_ctx(void) {
 static void begin_call(void) {
     wlen = 0; nflush = 0; nerr = 0; loglen = 0; e113len = 0; first_in_call = 1; logbuf[0] = 0; e113[0] = 0;
 }
+static int drain_errors;        /* no error callback installed: the errors of a call are read from the queue after it */
 static void end_call(int ret) {
     size_t i;
+    if (drain_errors) {
+        scpi_error_t e;
+        while (SCPI_ErrorCount(&ctx) > 0 && nerr < 256) {
+            SCPI_ErrorPop(&ctx, &e);
+            errv[nerr++] = (int) e.error_code;
+#if USE_DEVICE_DEPENDENT_ERROR_INFORMATION
+            SCPIDEFINE_free(&ctx.error_info_heap, e.device_dependent_info, false);
+#endif
+        }
+    }
     fprintf(out, "%s{\"ret\":%d,\"log\":[%s],\"out\":[", first_call ? "" : ",", ret, logbuf);
     first_call = 0;
     for (i = 0; i < wlen; i++) fprintf(out, "%s%d", i ? "," : "", wbuf[i]);
@@ -378,6 +389,7 @@ int main(int argc, char ** argv) {
     if (!in || !out) { perror("open"); return 3; }
     scpi_verif_hook = hook;
     evon = getenv("DRV_EVENTS") != NULL;
+    if (getenv("DRV_NULL_ERROR")) { itf.error = NULL; drain_errors = 1; }
     if (getenv("DRV_NULL_CALLBACKS")) { itf.error = NULL; itf.control = NULL; itf.flush = NULL; itf.reset = NULL; }   /* the optional ones */
     while (fgets(line, sizeof line, in)) {
         size_t n = strlen(line);
